@@ -24,6 +24,20 @@ theorem validTrans_is_the_stated_matrix :
   intro a b
   cases a <;> cases b <;> decide
 
+/-- structure obligation of the status-matrix theorems: the model's `Op.to` is one atomic step
+    "check `validTrans`, then move".  That is what the code does only if `OpStatusTracker.To`,
+    `CheckExpired` and `CheckTimeout` hold the tracker's write lock for their whole body, decide inside
+    it (through `toLocked`) and nothing but `toLocked` assigns the status.  Re-checked against the facts
+    extracted from status_tracker.go on every run. -/
+theorem status_moves_are_atomic_sections :
+    PdModel.Generated.OpCtl.trackerToLocked = true ∧
+    PdModel.Generated.OpCtl.trackerCheckExpiredLocked = true ∧
+    PdModel.Generated.OpCtl.trackerCheckTimeoutLocked = true ∧
+    PdModel.Generated.OpCtl.trackerToChecksUnderLock = true ∧
+    PdModel.Generated.OpCtl.trackerExpireChecksUnderLock = true ∧
+    PdModel.Generated.OpCtl.trackerTimeoutChecksUnderLock = true ∧
+    PdModel.Generated.OpCtl.statusAssigners = ["toLocked"] := by decide
+
 /-- a single `To` of the status tracker either leaves the status or moves along `validTrans` -/
 theorem to_moves_along_validTrans (o : Op) (dst : Status) :
     (o.to dst).1.status = o.status ∨ C09.allowed o.status (o.to dst).1.status = true := by
